@@ -97,6 +97,9 @@ func c11Catalogue() []c11Entry {
 	add(c11Entry{name: "Float.EQ", mk: func(o ...z.TestOption) z.ZogSchema { return z.Float64().EQ(5.5, o...) }, dest: ft, input: 7.5, value: 7.5, dtype: "number", code: "eq", pkey: "eq", pval: 5.5})
 	add(c11Entry{name: "Float.LT", mk: func(o ...z.TestOption) z.ZogSchema { return z.Float64().LT(5.5, o...) }, dest: ft, input: 7.5, value: 7.5, dtype: "number", code: "lt", pkey: "lt", pval: 5.5})
 	add(c11Entry{name: "Float.GTE", mk: func(o ...z.TestOption) z.ZogSchema { return z.Float64().GTE(9.5, o...) }, dest: ft, input: 7.5, value: 7.5, dtype: "number", code: "gte", pkey: "gte", pval: 9.5})
+	add(c11Entry{name: "Int.OneOf(single option)", mk: func(o ...z.TestOption) z.ZogSchema { return z.Int().OneOf([]int{10}, o...) }, dest: it, input: 7, value: 7, dtype: "number", code: "one_of_options", pkey: "one_of_options", pval: []int{10}})
+	add(c11Entry{name: "Int.OneOf(no option)", mk: func(o ...z.TestOption) z.ZogSchema { return z.Int().OneOf([]int{}, o...) }, dest: it, input: 7, value: 7, dtype: "number", code: "one_of_options", pkey: "one_of_options", pval: []int{}})
+	add(c11Entry{name: "String.OneOf(single option)", mk: S(func(s *z.StringSchema[string], o ...z.TestOption) *z.StringSchema[string] { return s.OneOf([]string{"x"}, o...) }), dest: str, input: "ab", value: "ab", dtype: "string", code: "one_of_options", pkey: "one_of_options", pval: []string{"x"}})
 	add(c11Entry{name: "Float.OneOf", mk: func(o ...z.TestOption) z.ZogSchema { return z.Float64().OneOf([]float64{1.5}, o...) }, dest: ft, input: 7.5, value: 7.5, dtype: "number", code: "one_of_options", pkey: "one_of_options", pval: []float64{1.5}})
 	add(c11Entry{name: "Int.Required", mk: func(o ...z.TestOption) z.ZogSchema { return z.Int().Required(o...) }, dest: it, input: nil, value: 0, dtype: "number", code: "required", isAbsentIssue: true})
 	add(c11Entry{name: "Int.coerce", mk: func(o ...z.TestOption) z.ZogSchema { return z.Int() }, dest: it, input: "abc", dtype: "number", code: "coerce", noOpts: true, coerce: true})
